@@ -892,6 +892,14 @@ def cli_cases(g, group, thorough):
         for line in ["ab  \n", "x\t\n", "   \n", " a \n", "ab \r\n", "ab\r\r\n", "ab\n\n", "q \x0c\n"]:
             for cap in (1, 3, 5, 255):
                 out.append(("-", f"start:\nmov bx, 0x300\nmov byte [bx], {cap}\nmov dx, bx\nmov ah, 0x0A\nint 0x21\nprint reg\nprint mem 0x300 : 12\nmov ah, 1\nint 0x21\nprint reg\n", line + "next\n"))
+        # reads that continue AFTER the end of input: the same buffer read again and again with fewer lines than reads
+        # (a buffered read at end of input stores the count 0, whatever count an earlier read or the program left there)
+        for nlines in (0, 1, 2, 3):
+            for cap, stale in ((8, 0), (8, 5), (3, 2), (255, 200), (1, 1), (0, 7)):
+                stdin_ = "".join(["hello\n", "wo\n", "third line\n"][:nlines])
+                rd = "mov dx, bx\nmov ah, 0x0A\nint 0x21\nprint mem 0x300 : 12\n"
+                out.append(("-", f"start:\nmov bx, 0x300\nmov byte [bx], {cap}\nmov byte [0x301], {stale}\nmov byte [0x302], 0x2A\n" + rd * 3
+                            + "mov ah, 1\nint 0x21\nprint reg\n" + rd, stdin_))
         # input lines that do not start with (or contain only) ASCII
         for line in ["\u00e9t\u00e9\n", "\u0100x\n", "\u20ac\n", "a\u00e9\n", "\U0001F600z\n", "\u00e9", "\x7f\n", "\u00ff\u00fe\n"]:
             for ah, cap in ((1, 0), (0x0A, 1), (0x0A, 2), (0x0A, 3), (0x0A, 5), (0x0A, 255)):
@@ -1097,9 +1105,14 @@ def cli_cases(g, group, thorough):
             src = "\n".join(lines + body) + "\n"
             out.append(("-", src, "") + tuple(exps))
     elif group == "deep":
-        # deep (but tractable) recursion that unwinds completely; depths beyond about 10^5 pending calls exceed the
-        # model's step budget and the watchdog and are NOT explored (see seeded/Y3B: recorded limitation)
+        # deep recursion that unwinds completely; quick tier: a depth the model follows step by step
         out.append(("-", "def down {\ndec cx\njz bottom\ncall down\nbottom:\n}\nstart:\nmov cx, 3000\ncall down\nmov bx, 1\nprint reg\n", "", "BX : 0x0001"))
+        if thorough:
+            # more than 2^20 pending calls (17 * 65536 levels, about 4.5 million executed instructions, a minute in the
+            # debug binary): far beyond the model's step budget, so only what needs no model is judged - the emulator
+            # must not abort and, every RET having resumed after its CALL, the program must reach `mov bx, 1` (seed Y3B)
+            out.append(("-", "def down {\ndec cx\njnz deeper\ndec dx\njz bottom\ndeeper:\ncall down\nbottom:\n}\nstart:\nmov cx, 0\nmov dx, 17\ncall down\nmov bx, 1\nprint reg\n", "",
+                        "BX : 0x0001"))
     elif group == "strings":
         # C07 through the real run loop: every string mnemonic x width x DF x prefix, driven by the binary's own
         # REPEAT handling to completion; conditional repeats over data that stops them early, late or never
